@@ -361,6 +361,11 @@ def history_stage(tier):
                 if errs:
                     bad.append(('history.run-raises', dict(grammar=g['name'], error=errs[0][:300], job=jobs[k + 2])))
                     continue
+                short = [(x['n_results'], nn) for x, nn in ((solo_u, 1), (solo_w, 1), (uw, 2), (wu, 2), (ulw, 3), (pool, 2), (wuw, 3)) if x['n_results'] != nn or len(x['sentences']) != nn]
+                if short:
+                    bad.append(('history.result-count', dict(grammar=g['name'], got=short[0][0], expected=short[0][1], job=jobs[k + 5])))
+                    continue
+
                 def key(x, s):
                     return [(t['key'], t['score'], t['placeholder']) for t in x['sentences'][s]]
                 info['sentences'] += 11
@@ -375,9 +380,6 @@ def history_stage(tier):
                         break
                 if not (len(ulw['sentences']) == 3 and len(ulw['sentences'][1]) == 1 and ulw['sentences'][1][0]['placeholder']):
                     bad.append(('history.too-long-sentence-not-a-lone-placeholder', dict(grammar=g['name'], got=ulw['sentences'][1])))
-                for x, nn in ((uw, 2), (wu, 2), (ulw, 3), (pool, 2), (wuw, 3)):
-                    if x['n_results'] != nn:
-                        bad.append(('history.result-count', dict(grammar=g['name'], got=x['n_results'], expected=nn)))
             # the step budget is per sentence: with max_step = the larger of the two solo pop counts both sentences still parse in one batch
             tjobs, tplan = [], []
             for (i, k), (_, u, w, J) in list(zip(plan, tight))[:(8 if q else 40)]:
@@ -394,6 +396,10 @@ def history_stage(tier):
                 if any(x.get('error') for x in (su, sw, uw2, wuw2)):
                     bad.append(('history.run-raises', dict(grammar=g['name'], error=[x.get('error') for x in (su, sw, uw2, wuw2) if x.get('error')][0][:300])))
                     continue
+                if [len(x['sentences']) for x in (su, sw, uw2, wuw2)] != [1, 1, 2, 3]:
+                    bad.append(('history.result-count', dict(grammar=g['name'], got=[len(x['sentences']) for x in (su, sw, uw2, wuw2)], expected=[1, 1, 2, 3])))
+                    continue
+
                 def key2(x, s):
                     return [(t['key'], t['score'], t['placeholder']) for t in x['sentences'][s]]
                 for name, a, b in (('step-budget-shared-across-sentences', key2(uw2, 1), key2(sw, 0)), ('step-budget-shared-across-sentences', key2(uw2, 0), key2(su, 0)), ('step-budget-shared-across-sentences', key2(wuw2, 2), key2(sw, 0))):
